@@ -108,6 +108,11 @@ class CallTreeTransformer(converter.Base):
     for i, d in enumerate(node.args.kw_defaults):
       if d is not None:
         node.args.kw_defaults[i] = self.visit(d)
+    # So is the return annotation: it is evaluated where the function is
+    # defined. (That of the function being converted is evaluated outside any
+    # function scope and stays as it is.)
+    if node.returns and self.state[_Function].level:
+      node.returns = self.visit(node.returns)
     with self.state[_Function] as fn_scope:
       # Note: if the conversion process ever creates helper functions, this
       # assumption will no longer hold.
@@ -115,8 +120,6 @@ class CallTreeTransformer(converter.Base):
           'The function_scopes converter always creates a scope for functions.')
       fn_scope.context_name = anno.getanno(node, 'function_context_name')
       node.body = self.visit_block(node.body)
-      if node.returns:
-        node.returns = self.visit(node.returns)
       return node
 
   def visit_With(self, node):
